@@ -13,7 +13,7 @@ TRACE_CFG = "World_Trace.cfg"
 def validate_programs(ctx, programs, source, expect_clean=True, tamper=True):
     ctx.replay_driver = "world"
     return ctx.validate(TRACE, TRACE_CFG, programs, Wd.run_program, source=source,
-                        tamper=Wd.tamper if tamper else None, expect_clean=expect_clean, chunk=1500)
+                        tamper=Wd.tamper if tamper else None, expect_clean=expect_clean, chunk=300)
 
 
 def validate_runs(ctx, runs, source, expect_clean=True, tamper=True):
@@ -21,7 +21,7 @@ def validate_runs(ctx, runs, source, expect_clean=True, tamper=True):
     programs = [r[0] for r in runs]
     traces = [r[1] for r in runs]
     return ctx.validate_traces(TRACE, TRACE_CFG, traces, programs, source=source,
-                               tamper=Wd.tamper if tamper else None, expect_clean=expect_clean, chunk=1500)
+                               tamper=Wd.tamper if tamper else None, expect_clean=expect_clean, chunk=300)
 
 
 def random_runs(ctx, n, **kw):
